@@ -103,7 +103,7 @@ impl Writer {
                                 }
                             }
                         }
-//@hint before <<<if new_left != left || new_right != right {>>>
+//@hint afterstmt <<<let new_right = self.insert_items_in_file(>>>
                         let ghost tr = tmp_nodes.tv(); let ghost ar = tmp_nodes.allocated(); let ghost lgr = large_descendants@;
 //@hint before#3 <<<Ok(current_node)>>>
                             proof { lemma_ins_split(m, u0, current_node, t0, tl, tr, tmp_nodes.tv(), a0, al, ar, ins, lset, rset, cap, lg0, lgl, lgr, new_left, new_right, frozen_reader.leafs); }
